@@ -1835,7 +1835,24 @@ fn gen_source(rng: &mut Rng, hist: &mut Hist) -> Source {
     } else {
         hist.add("inject=none");
     }
-    Source { files, mode, layout: false, ndefs: 0, tag, clean, anchor, note_anchor: None }
+    // command-line defines in front of a generated program: every position of the program lies behind their pseudo-files
+    let mut ndefs = 0;
+    if r.chance(1, 6) {
+        let pads = ["CLD_GEN_A 11", "CLD_GEN_B(p, q) ((p) + (q) + 100)", "CLD_GEN_C ", "CLD_GEN_D \"a string literal that makes this define larger than most lines\""];
+        let mut defs: Files = Vec::new();
+        for _ in 0..r.range(1, 4) {
+            defs.push((DEFINE_FILE.to_string(), r.pick(&pads).to_string()));
+        }
+        ndefs = defs.len();
+        files = defs.iter().cloned().chain(files.into_iter()).collect();
+        clean = clean.map(|c| defs.iter().cloned().chain(c.into_iter()).collect());
+        anchor = anchor.map(|(fi, lo, hi)| (fi + ndefs, lo, hi));
+        tag.push_str(&format!(",defines:{}", ndefs));
+        hist.add(&format!("command-line-defines={}", ndefs));
+    } else {
+        hist.add("command-line-defines=0");
+    }
+    Source { files, mode, layout: false, ndefs, tag, clean, anchor, note_anchor: None }
 }
 
 // ------------------------------------------------------------------------------------------------
@@ -2918,7 +2935,14 @@ pub fn run(args: &Args, out: &mut Out) {
     for (kind, fams) in [("diag", diag_names), ("own", own_family_names())] {
         for (fi, family) in fams.iter().enumerate() {
             // the single-program families have no variation beyond their header lines
-            let seeds = if family.starts_with("ty_single#") || family.starts_with("lx_single#") { (seeds_per_family / 6).max(1) } else { seeds_per_family };
+            let seeds = if family.starts_with("ty_single#") || family.starts_with("lx_single#") {
+                (seeds_per_family / 6).max(1)
+            } else if ["lt_cmdline_defines", "lt_defined_forms", "lt_directive_shapes"].contains(&family.as_str()) {
+                // a dozen or more hand-written variants each
+                seeds_per_family * 3
+            } else {
+                seeds_per_family
+            };
             for j in 0..seeds {
                 let seed = rng.next() >> 16;
                 let Some(src) = family_source(kind, family, seed) else { continue };
